@@ -45,6 +45,8 @@ Spec == Init /\ [][Next]_vars
 
 AX   == Configs[cfg].ax
 Full == Configs[cfg].full
+\* factor vectors for the pair laws: uniform 1, uniform 2, 1..d, and 3 (3/2 with denominator 2); minus 2 they serve as translations
+PairFactors == LET d == Configs[cfg].d IN {[i \in 1..d |-> 1], [i \in 1..d |-> 2], [i \in 1..d |-> i], [i \in 1..d |-> 3]}
 
 \* two strictly increasing coordinate maps: a cubic one and one that pushes the two signs far apart
 Cubic(k)  == k * k * k - 7
@@ -67,6 +69,11 @@ PointLaws ==
     /\ LawTranslate(a, p, AX, WideOf[cfg])
     /\ LawScale(a, p, AX)
     /\ (Full => (LawMonotonePt(Cubic, a, p) /\ LawMonotonePt(Spread, a, p)))
+    \* boxes without points under positive scaling (p as the factor, also p/2 and 3p/2 where divisible) and translation by p
+    /\ LawScaleEmpty(a, p, 1, WideOf[cfg], PtsOf[cfg])
+    /\ LawScaleEmpty(a, p, 2, WideOf[cfg], PtsOf[cfg])
+    /\ LawScaleEmpty(a, [i \in DOMAIN p |-> 3 * p[i]], 2, WideOf[cfg], PtsOf[cfg])
+    /\ LawTranslateEmpty(a, p, WideOf[cfg], PtsOf[cfg])
 PairLaws ==
   kind = "pair" =>
     /\ LawExtendBox(a, b, AX)
@@ -75,6 +82,7 @@ PairLaws ==
     /\ LawDisjoint(a, b, AX)
     /\ LawDisjointTouching(a, b)
     /\ (Full => (LawMonotonePair(Cubic, a, b) /\ LawMonotonePair(Spread, a, b)))
+    /\ \A n \in PairFactors : LawScalePair(a, b, n, 1) /\ LawScalePair(a, b, n, 2) /\ LawTranslatePair(a, b, [i \in DOMAIN n |-> n[i] - 2])
 
 \* Sharpness (constant level): why LawDisjoint and LawExtendBox are restricted to proper operands -
 \* with an inverted operand the comparison formulas no longer describe the (empty) point set.
